@@ -66,6 +66,10 @@ structure ParserModel where
   parse : Bytes → Option Sym
   /-- `symbol_file.url = Some(url)` -/
   setUrl : Sym → Url → Sym
+  /-- every line of the input (an unterminated last one included) is shorter than
+      `MAX_BUFFER_CAPACITY / 2` = 80 KiB: the domain on which C10 proves chunk independence (what the
+      real parser does with a 80–160 KiB line depends on where it sits in the window) -/
+  shortLines : Bytes → Prop
   /-- state of `parse_async`'s loop between two `response.chunk().await` -/
   σ : Type
   init : σ
@@ -116,8 +120,8 @@ def EndsNl (b : Bytes) : Prop := ∃ pre, b = pre ++ [10]
     of C09/C10 (proved there, assumed here — see the trusted base):
     * `callback_prefix`  (C10.7) the concatenated callback arguments are a prefix of what the
       reader delivered, and all of it when the result is `Ok`;
-    * `chunk_independent` (C10.6) a successful streaming parse yields the table of the whole-buffer
-      parse of the same bytes;
+    * `chunk_independent` (C10.6, same hypothesis as there: all lines shorter than 80 KiB) a
+      successful streaming parse yields the table of the whole-buffer parse of the same bytes;
     * `info_url_trailer` (DESIGN §6.C16) appending the `INFO URL` line to a body that parses AND
       ends in a line feed keeps the table and sets the URL. (Without "ends in a line feed" this is
       false for the real parser: a body whose unterminated last line is longer than the 160 KiB
@@ -127,7 +131,8 @@ def EndsNl (b : Bytes) : Prop := ∃ pre, b = pre ++ [10]
 structure ParserLaws (P : ParserModel) : Prop where
   callback_prefix : ∀ rx s cb, P.runRev rx = some (s, cb) →
     (∃ rest, cb ++ rest = bodyOf rx) ∧ (∀ fin t, P.finish s = some (fin, t) → cb ++ fin = bodyOf rx)
-  chunk_independent : ∀ rx cb t, P.stream rx = some (cb, t) → P.parse (bodyOf rx) = some t
+  chunk_independent : ∀ rx cb t, P.shortLines (bodyOf rx) → P.stream rx = some (cb, t) →
+    P.parse (bodyOf rx) = some t
   info_url_trailer : ∀ body t u, UrlClean u → EndsNl body → P.parse body = some t →
     P.parse (body ++ trailer u) = some (P.setUrl t u)
 
@@ -352,6 +357,7 @@ def finish (s : St) : Option (Bytes × Sym) :=
 
 def model : ParserModel :=
   { Sym := Sym, parse := parse, setUrl := fun t u => { t with url := some u },
+    shortLines := fun _ => True,
     σ := St, init := ⟨[]⟩, feed := feed, finish := finish }
 
 end Toy
